@@ -90,7 +90,9 @@ def scaled_inputs():
 
 
 BAD_CONFIGS = [{"A$": 0}, {"A": 3}, {"AAA$": 1}, {"A$": 32767}, {"a$": 5}, {"A$()": 10, "B$": 20}, {"_$": 1}, {"A$$": 2},
-               {"A()": 3}, {"": 1}, {"A$": -1}, {"A$": 10 ** 9}, {"1A$": 4}, {"A1$": 4}, {"A_$()": 7}]
+               {"A()": 3}, {"": 1}, {"A$": -1}, {"A$": 10 ** 9}, {"1A$": 4}, {"A1$": 4}, {"A_$()": 7},
+               {"$": 5}, {"$()": 5}, {"()": 5}, {"$$": 5}, {" ": 5}, {"A$()()": 5}, {"$A": 5}, {"A$ ": 5}, {" A$": 5}, {"A$(": 5}, {"A$)": 5},
+               {"ABC$": 5}, {"A$": 0.5}, {"A$": "x"}, {"A$": None}, {"A$": True}, {"A$": 32768}, {"A$": 1}, {"\u00e9$": 5}, {"A\n$": 5}]
 
 
 def mutate(rng, lines, nmut):
